@@ -391,6 +391,11 @@ def install(p: Patcher, src: Source):
     stubs = {}
     if src.symbolic:
         install_numeric_shims(p)
+        from symx.env import install_set_shims
+
+        install_set_shims(p, ["glotaran.optimization.matrix_provider", "glotaran.optimization.estimation_provider",
+                              "glotaran.optimization.data_provider", "glotaran.optimization.optimization_group",
+                              "glotaran.optimization.optimizer"])
     for name, real in list(ep.SUPPORTED_RESIUDAL_FUNCTIONS.items()):
         stubs[name] = LinearSolverStub(src, real, name)
         p.setitem(ep.SUPPORTED_RESIUDAL_FUNCTIONS, name, stubs[name], f"SUPPORTED_RESIUDAL_FUNCTIONS[{name}] -> recording functional stub")
